@@ -236,6 +236,34 @@ def float_stress(run, cases, seed):
                                   reproduced=True)
 
 
+def dtype_part(run, seed):
+    """bounded, native: the operator identities a - b = a + (-b) and a / b = a * b**-1 on every pairing of operand dtypes a Tensor can hold (floats, signed and
+    UNSIGNED integers, bool): both sides are library expressions; they must agree in value (or be refused alike)"""
+    from synapgrad.tensor import Tensor
+    rng = np.random.RandomState(seed + 5)
+    dts = [np.float32, np.float64, np.int32, np.int64, np.uint8, np.uint16, np.bool_]
+    for da in dts[:4]:
+        for db in dts:
+            for shape_a, shape_b in (((2, 3), (2, 3)), ((2, 3), (3,)), ((), (2,))):
+                a = np.asarray(rng.randint(1, 200, size=shape_a)).astype(da) if np.dtype(da).kind != "f" else np.asarray(rng.rand(*shape_a) * 100 + 1).astype(da)
+                b = np.asarray(rng.randint(1, 120, size=shape_b)).astype(db) if np.dtype(db).kind != "f" else np.asarray(rng.rand(*shape_b) * 100 + 1).astype(db)
+                for name, lhs, rhs in (("a-b=a+(-b)", lambda x, y: x - y, lambda x, y: x + (-y)), ("a/b=a*b**-1", lambda x, y: x / y, lambda x, y: x * y ** -1)):
+                    run.rt(("operator-identity", name, np.dtype(da).name, np.dtype(db).name, shape_a, shape_b))
+                    outs = []
+                    for side in (lhs, rhs):
+                        try:
+                            with np.errstate(all="ignore"):
+                                outs.append(np.asarray(side(Tensor(a.copy()), Tensor(b.copy())).data, dtype=np.float64))
+                        except Exception as e:
+                            outs.append(type(e).__name__)
+                    l, r = outs
+                    same = (isinstance(l, str) and isinstance(r, str)) or (not isinstance(l, str) and not isinstance(r, str) and l.shape == r.shape and np.allclose(l, r, rtol=1e-5, atol=1e-6))
+                    if not same:
+                        run.violation(name + ".value_equal_for_every_operand_dtype", "%s with a: %s %s, b: %s %s: fused form gives %s, the composition gives %s" %
+                                      (name, np.dtype(da).name, a.tolist(), np.dtype(db).name, b.tolist(), l if isinstance(l, str) else l.tolist(), r if isinstance(r, str) else r.tolist()),
+                                      key={"identity": name, "dtype_a": np.dtype(da).name, "dtype_b": np.dtype(db).name}, replay={"a": a.tolist(), "b": b.tolist()}, reproduced=True)
+
+
 def identities(tier):
     import synapgrad.functional as F
     import synapgrad.nn.functional as NF
@@ -398,4 +426,5 @@ def main(tier="quick", seed=0, procs=None, only=None):
     run.assume("floating point: besides the proof over the reals, the softmax-type identities are evaluated natively in float32/float64 on rows at very different scales "
                "(bounded run-time part, counted as bounded evaluations, not as discharged obligations)")
     float_stress(run, cases, seed)
+    dtype_part(run, seed)
     return run.finish()
